@@ -451,4 +451,55 @@ def c01_setters(ctx):
     from .C01 import setter_writes as _r
     return _r(ctx)
 
-RULES = [c01_setters, c01_init_stores, derived_sync_rule, no_stale, newton_batch, pure, inverted_fresh, no_param_mutation, reset_first, rng_sites]
+def inputs_converted(ctx):
+    """quantifier 'with scalar, list and array arguments': the input
+    converters return a new float array and have no effect on their argument,
+    so a call whose result is dropped converts nothing; and a scalar is a
+    scalar whatever its numeric type (np.float32 / np.int64 values come out
+    of every numpy computation)."""
+    P = ctx.P
+    res = Result('INPUTS-CONVERTED', 'results of the pure input converters '
+                 'are used; numpy scalar types are scalars')
+    n = 0
+    for f in P.all_funcs():
+        for st in ast.walk(f.node):
+            if isinstance(st, ast.Expr) and isinstance(st.value, ast.Call) \
+                    and isinstance(st.value.func, ast.Attribute) and \
+                    st.value.func.attr == '_process_input':
+                res.fail(ctx.finding(
+                    'INPUTS-CONVERTED', f, st,
+                    f'{f.qual} calls {unparse(st.value)} and drops the '
+                    f'result: the argument reaches the ray container '
+                    f'unconverted (np.float32 EPD or np.int64 object '
+                    f'distance: ValueError "Unsupported input type" from '
+                    f'every paraxial query)',
+                    construct=f'dropped conversion {unparse(st.value)}'))
+            if isinstance(st, ast.Call) and isinstance(st.func, ast.Attribute) \
+                    and st.func.attr == '_process_input':
+                n += 1
+    res.ok(f'{n} converter calls examined')
+    b = P.func('BaseRays._process_input')
+    res.saw(b)
+    scal = [c for c in ast.walk(b.node) if isinstance(c, ast.Call) and
+            unparse(c.func) == 'isinstance' and len(c.args) == 2 and
+            'int' in unparse(c.args[1]) and 'float' in unparse(c.args[1])]
+    uses_isscalar = 'np.isscalar' in unparse(b.node, 100000)
+    ok = uses_isscalar or any(
+        ('np.integer' in unparse(c.args[1]) and
+         'np.floating' in unparse(c.args[1])) or
+        'np.number' in unparse(c.args[1]) or
+        'numbers.Real' in unparse(c.args[1]) or
+        'numbers.Number' in unparse(c.args[1]) for c in scal)
+    if ok:
+        res.ok('BaseRays._process_input: numpy scalar types are scalars')
+    else:
+        res.fail(ctx.finding(
+            'INPUTS-CONVERTED', b, scal[0] if scal else b.node,
+            'BaseRays._process_input recognises only Python int and float '
+            'as scalars: a numpy scalar that is not float64 (np.float32, '
+            'np.int64) is rejected with "Unsupported input type"',
+            construct='numpy scalars rejected'))
+    return res
+
+
+RULES = [inputs_converted, c01_setters, c01_init_stores, derived_sync_rule, no_stale, newton_batch, pure, inverted_fresh, no_param_mutation, reset_first, rng_sites]
